@@ -109,7 +109,9 @@ CASES = [
              "        if not (0.0 <= constraint_weight <= 1.0):\n            raise RuntimeError(\"Must specify constraint_weight between 0.0 and 1.0\")\n")),
     R("r-grid-predict-noise", GS, "GridSearch.predict: logger.debug before check_is_fitted, result through a temporary",
       ("        check_is_fitted(self)\n        return self.predictors_[self.best_idx_].predict(X)\n",
-       "        logger.debug(\"predict\")\n        check_is_fitted(self)\n        best = self.predictors_[self.best_idx_]\n        return best.predict(X)\n")),
+       "        logger.debug(\"predict\")\n        check_is_fitted(self)\n        best = self.predictors_[self.best_idx_]\n        return best.predict(X)\n"),
+      expect="refused", why="validation_tables.py itself emits identical text; the refusal comes from grid.py (C09, not in this package), which compares "
+                             "the body of GridSearch.predict textually and does not inline the temporary"),
     R("r-frame-demorgan-rename", MF, "_get_annotated_metric_functions: De Morgan in the first guard, the two key sets renamed",
       (FRAME1, "        if not (sample_params is None or isinstance(sample_params, dict)):\n            raise ValueError(_SAMPLE_PARAMS_NOT_DICT)\n\n        annotated_functions = {}\n"),
       (SUBSET, "        given = set(sample_params.keys())\n        known = set(metric.keys())\n"
